@@ -10,7 +10,7 @@ BUDGET = {"quick": 1500, "thorough": 60000}
 RULE = ("arrays and objects of length 0..8 with arbitrary JSON elements, reached by a context path, a '../' path, a block "
         "parameter, @root, a literal or a subexpression (lookup); each nested up to 4 deep and mixed with with/if/partials; "
         "0, 1 or 2 block parameters; bodies print this/@index/@key/@first/@last/@../index and the parameters with "
-        "separators; oracle = reference renderer (concatenation over the elements in index / key order); non-trivial = "
+        "separators, and the second parameter where its JSON type matters (truthiness, eq with @index/@key, as an array index); oracle = reference renderer (concatenation over the elements in index / key order); non-trivial = "
         "at least one iteration happened; distinct by output")
 DEFINITE_FLOOR = 0.6
 
@@ -51,6 +51,14 @@ def body(rng, bps, depth, inner_coll):
     for b in bps:
         txt("|")
         nodes.append({"t": "expr", "arg": {"a": "param", "name": b, "segs": []}, "html": 0})
+    if len(bps) == 2 and rng.chance(0.7):
+        # the JSON TYPE of the second parameter (a number for arrays, a string for objects), in positions where it matters:
+        # truthiness (index 0 is falsy, key "0" is truthy), equality with @index / @key, use as an array index
+        kp = {"a": "param", "name": bps[1], "segs": []}
+        txt("?")
+        nodes.append({"t": "if", "neg": False, "arg": kp, "body": [{"t": "text", "s": "T"}], "else": [{"t": "text", "s": "F"}], "incz": False})
+        nodes.append({"t": "expr", "arg": {"a": "sub", "h": "eq", "args": [kp, {"a": "local", "ups": 0, "name": rng.pick(["index", "key"])}]}, "html": 0})
+        nodes.append({"t": "expr", "arg": {"a": "sub", "h": "lookup", "args": [{"a": "path", "ups": 0, "root": True, "segs": ["idx"]}, kp]}, "html": 0})
     if depth > 0 and rng.chance(0.6):
         txt("<")
         nodes.append(each_node(rng, {"a": "path", "ups": 0, "root": False, "segs": []}, depth - 1, nested=True))
@@ -75,7 +83,7 @@ def generate(rng, n, tier="quick"):
         r = rng.fork(i)
         i += 1
         c = coll(r)
-        data = {"c": c, "o": {"c": c, "n": 5}, "w": {"x": 1}, "s": "str", "arr2": [c, c]}
+        data = {"c": c, "o": {"c": c, "n": 5}, "w": {"x": 1}, "s": "str", "arr2": [c, c], "idx": ["i0", "i1", "i2", "i3", "i4", "i5", "i6", "i7", "i8"]}
         prov = r.pick(["path", "up", "param", "root", "lit", "sub", "deep", "scalar"])
         arg_c = {"a": "path", "ups": 0, "root": False, "segs": ["c"]}
         wrap = lambda n_: [n_]
